@@ -92,7 +92,11 @@ fn run_case_lb(seq: &[Op], loopback: bool, trace: bool) -> CaseResult {
                     let mut i = Inst::simple(&format!("u{j}"), &format!("uh{j}"), [10, 0, 0, 50]);
                     i.ty = n("_z._udp.local");
                     i.inst = n(&format!("u{j}._z._udp.local"));
-                    w.deliver(0, IF0, PEER0, build(&response(i.all(120))));
+                    // the PTR at every position of the answer section in turn
+                    let mut recs = i.all(120);
+                    let len = recs.len();
+                    recs.rotate_right(j % len);
+                    w.deliver(0, IF0, PEER0, build(&response(recs)));
                 }
             }
             Op::OrphanStream => {
